@@ -13,6 +13,7 @@
 -/
 import AcbModel.Lemmas.QtLayout
 import AcbModel.Lemmas.QtAccept
+import AcbModel.Lemmas.QtCashOut
 import AcbModel.Broker.Examples
 namespace Acb
 open Acb.Qt Acb.Qt.Ex
@@ -203,6 +204,29 @@ example : fxSum (fun _ => true) (convertReaders (recs.map Record.reader)).fx = -
 theorem C18_cash_conservation_sheet (p : Account → Bool) (s : Sheet) (h : (sheetToTxs s).errors = []) :
     fxSum p (sheetToTxs s).fx = cashFrom p 2 (s.rows.map (fun row => cellAt s.hdr row)) :=
   C18_cash_conservation p _ h
+
+/-- **Cash conservation on the final output.**  With the FX rows left in (no `--no-fx`, no
+    `--security` filter), whatever `--account`, `--no-sort` and `--usd-exchange-rate` are: the
+    signed shares of the `USD.FX` rows of the output add up to the net USD cash flow of the rows of
+    the selected accounts (all accounts without `--account`) — provided the export converts
+    without row errors and none of its securities is itself called `USD.FX`. -/
+theorem C18_cash_conservation_output (o : Opts) (rds : List Reader) (txs : List BTx)
+    (errs : List (Nat × ErrKind)) (h : pipeline o (convertReaders rds) = .out txs errs)
+    (herr : errs = []) (hsec : o.security = none) (hfx : o.noFx = false)
+    (hsym : ∀ t ∈ (convertReaders rds).trades, t.security ≠ "USD.FX") :
+    usdFxTotal txs = cashFrom (acctPred o) 2 rds := by
+  have he : (convertReaders rds).errors = [] := by rw [← (pipeline_out h).1]; exact herr
+  rw [usdFxTotal_perm (pipeline_perm h)]
+  unfold selected Conv.txs
+  rw [List.filter_append, List.map_append, usdFxTotal_append,
+      usdFxTotal_selected_trades o _ hsym,
+      usdFxTotal_selected_fx o hsec hfx _ (fun t ht => (convertReaders_fx_mem ht).1.1),
+      C18_cash_conservation (acctPred o) rds he]
+  grind
+
+example : (pipeline { account := some (fun a => a == "Individual TFSA 10000001"), usdRate := some (3/2), noSort := true }
+            (convertReaders (recs.map Record.reader))).txs?.map usdFxTotal = some (-2995/100 + 100 + 61/2) ∧
+    ∀ t ∈ (convertReaders (recs.map Record.reader)).trades, t.security ≠ "USD.FX" := by decide +kernel
 
 /-- What the summands are: a trade row moves `±price·shares − commission` …
     (`shares`, `commission` being the absolute values of the cells, `C18_fields`) -/
